@@ -17,6 +17,7 @@
  R5 order         : baud rates descending, then modes by (bit rate, offset) descending; first passing mode returned.
  Rm memo          : every memoisation construct in the functions behind this property is keyed by everything it reads.
  Rp presence      : optional numeric fields are tested with `is None` / membership, never by truthiness (0 is a value).
+ Rs sorted        : every numpy.interp abscissa is ascending by construction or by a recorded precondition.
 """
 import ast
 
@@ -443,6 +444,15 @@ def r6_tables(ctx):
 
 
 
+def rs_sorted(ctx):
+    """Rs: every numpy.interp call behind this property interpolates over an abscissa that is ascending by construction or by a
+    recorded precondition (numpy.interp does not check)"""
+    from .common import interp_rule
+    repo = ctx.repo
+    interp_rule(ctx, 'Rs.sorted-abscissa', repo.cls('Transceiver', 'gnpy.core.elements').all_funcs(), 'a penalty would be interpolated on unsorted boundaries')
+    ctx.need('Rs.sorted-abscissa', 1)
+
+
 from ..memo import rule_for as _memo_rule
 
 RULES_MEMO = ('Rm.memo', _memo_rule('C13', 'a verdict would be taken on the figures of another propagation'))
@@ -453,4 +463,4 @@ from ..presence import rule_for as _presence_rule
 RULES_PRESENCE = ('Rp.presence', _presence_rule('C13', 'a legal zero would be read as missing'))
 
 RULES = [('R6.tables', r6_tables), ('R1.verdict', r1_verdicts), ('R2.update-snr', r2_update_snr), ('R3.once', r3_once),
-         ('R4.penalties', r4_penalties), ('R5.order', r5_order), RULES_MEMO, RULES_PRESENCE]
+         ('R4.penalties', r4_penalties), ('R5.order', r5_order), RULES_MEMO, RULES_PRESENCE, ('Rs.sorted-abscissa', rs_sorted)]
